@@ -45,7 +45,7 @@ func depth(tier string) int {
 	return 7
 }
 
-var opts = senderkit.Opts{Crashes: true, MaxCrashEvents: 2, NoAdvance: true, Contradictions: true}
+var opts = senderkit.Opts{Crashes: true, MaxCrashEvents: 2, NoAdvance: true, Contradictions: true, NoPlainFailNext: true}
 
 func worldDir(u mc.Unit) string {
 	return filepath.Join(senderkit.ScratchRoot(), fmt.Sprintf("c13-%d-%s", os.Getpid(), u.Name))
@@ -55,6 +55,15 @@ func runUnit(r *mc.Report, base *mc.Ctx, u mc.Unit) {
 	cfg := u.Params.(senderkit.Cfg)
 	w := senderkit.NewWorld(cfg.Hist, worldDir(u))
 	defer w.Close()
+	// determinism self-check: one fixed history twice on fresh objects, same key and same observation
+	probe := []string{"L2Block", "EpochTick", "InError", "EpochTick/fault@2", "Settle", "L2Block", "EpochTick/crash@afterSubmitBeforeStore", "LoseDB"}
+	c1, c2 := &mc.Ctx{UnitName: u.Name}, &mc.Ctx{UnitName: u.Name}
+	k1, _ := senderkit.Run(c1, cfg, opts, w, probe)
+	k2, _ := senderkit.Run(c2, cfg, opts, w, probe)
+	if k1 != k2 || c1.Digest() != c2.Digest() {
+		r.Errorf("unit %s: nondeterministic execution of %v", u.Name, probe)
+		return
+	}
 	mc.BFS(r, base, mc.BFSModel{MaxDepth: depth(base.Tier), Build: func(c *mc.Ctx, history []string) (string, []string) {
 		return senderkit.Run(c, cfg, opts, w, history)
 	}})
@@ -70,6 +79,7 @@ func replay(c *mc.Ctx, u mc.Unit, v mc.Violation) {
 }
 
 func main() {
+	senderkit.SetDeadlineFromArgs(os.Args)
 	mc.Main(mc.Spec{
 		ID: "C13", Level: "model_checking",
 		Units:   units,
